@@ -46,14 +46,19 @@ TraceEnc == /\ Step("Enc")
             /\ LET e == Trace[l] IN
                  /\ e.kind \in Kinds
                  /\ Fits(e.kind, e.p)
-                 /\ Matches(e.kind, e.p, e.bytes)
+                 /\ IF Matches(e.kind, e.p, e.bytes) THEN TRUE
+                    ELSE PrintT(<<"line", l, "Enc", e.kind, "reference bytes", PackBytes(e.kind, e.p)>>) /\ FALSE
                  /\ (Has(e, "again") => e.again = e.bytes)
             /\ UNCHANGED vars
 
 TraceSend == /\ Step("Send")
              /\ LET e == Trace[l] IN Send(e.kind, e.p, e.lic)
 
+\* a frame the peer took must be the next frame sent; a rejected line prints the reference frame
 TraceRecv == /\ Step("Recv")
+             /\ IF Len(got) < Len(sent) /\ Trace[l].bytes = sent[Len(got) + 1] THEN TRUE
+                ELSE PrintT(<<"line", l, "Recv", "reference frame",
+                              IF Len(got) < Len(sent) THEN sent[Len(got) + 1] ELSE "nothing sent">>) /\ FALSE
              /\ Recv
              /\ Trace[l].bytes = got'[Len(got')]
 
